@@ -131,6 +131,14 @@ def run_jobs(jobs, nproc=None, seed=0):
         k = seed % len(jobs)
         jobs = jobs[k:] + jobs[:k]
     jobs = sorted(jobs, key=lambda j: -j.get("weight", 0))
+    budget = os.environ.get("VERIF_BUDGET_S")
+    if budget and float(budget) > 0:
+        # wall-clock budget for the whole pool: an exploration still running (or not yet started) at the
+        # deadline stops expanding and is reported as incomplete (never as exhaustive)
+        dl = time.time() + float(budget)
+        for j in jobs:
+            if not j.get("deadline"):
+                j["deadline"] = dl
     os.environ["PYTHONHASHSEED"] = str(seed % 4294967295)
     ctx = mp.get_context("spawn")
     results = []
@@ -253,6 +261,9 @@ def finish(prop, tier, seed, level, results, rule, t0, monitors, extra_cov=None,
         "distinct_terminal_observations": int(tot["terminal_observations"]),
         "families": dict(families),
         "scenarios_incomplete": incomplete[:50],
+        "scenarios_incomplete_count": len(incomplete),
+        "time_budget_s": float(os.environ.get("VERIF_BUDGET_S") or 0) or None,
+        "scenarios_cut_by_time_budget": int(tot.get("timed_out", 0)),
         "scenarios_skipped_by_inspection": len(skipped),
         "pruned_subtrees": int(tot["pruned_subtrees"]),
         "violating_transitions": int(tot["violating_transitions"]),
